@@ -204,6 +204,13 @@ class Evaluator:
     def ev_Name(self, st, e):
         return self.eng.lookup_name(st, e.id)
 
+    def ev_Set(self, st, e):
+        """a set display of literals is only supported as the right operand of `in` / `not in`: read as the tuple of
+        its elements (membership is the same; anything else done with it is outside the subset for a VTuple)"""
+        if not all(isinstance(x, ast.Constant) for x in e.elts):
+            raise OutOfSubset('set display with non-literal elements')
+        return VTuple([self.ev(st, x) for x in e.elts])
+
     def ev_Tuple(self, st, e):
         return VTuple([self.ev(st, x) for x in e.elts])
 
